@@ -200,7 +200,7 @@ class BudgetAccountant:
         if self.epsilon < epsilon_spent or self.delta < delta_spent:
             raise BudgetError(f"Privacy budget will be exceeded by changing slack to {slack}.")
 
-        self.__slack = slack
+        self.__slack = float(slack)
 
     @property
     def spent_budget(self):
